@@ -97,23 +97,25 @@ func initMaterial() {
 // ---- world: one gateway living through one history ----
 
 type world struct {
-	r       *vkit.R
-	gw      *bed.Gateway
-	stubs   map[string]*bed.Stub
-	model   *Model
-	lister  map[string]*ObjSpec                       // what the lister holds
-	pend    map[string]*proxyv1alpha1.UpstreamCluster // delivered object that asked for a requeue (still the lister's version)
-	pendS   map[string]*ObjSpec
-	infos   map[string]*clusters.ClusterInfo // last ClusterInfo seen for a live cluster (to check its context after delete)
-	events  []Event
-	token   string
-	wrap    func(*tls.ClientHelloInfo) (*tls.Config, error)
-	baseC   *tls.Config
-	ln      net.Listener
-	failed  bool
-	idn     int
-	hist    int
-	traffic bool
+	r          *vkit.R
+	gw         *bed.Gateway
+	stubs      map[string]*bed.Stub
+	model      *Model
+	lister     map[string]*ObjSpec                       // what the lister holds
+	pend       map[string]*proxyv1alpha1.UpstreamCluster // delivered object that asked for a requeue (still the lister's version)
+	pendS      map[string]*ObjSpec
+	infos      map[string]*clusters.ClusterInfo // last ClusterInfo seen for a live cluster (to check its context after delete)
+	events     []Event
+	token      string
+	wrap       func(*tls.ClientHelloInfo) (*tls.Config, error)
+	baseC      *tls.Config
+	ln         net.Listener
+	failed     bool
+	idn        int
+	hist       int
+	traffic    bool
+	stableBase bool
+	queried    map[string]bool // host strings already used as SNI / Host before (GetConfigForClient, SNIVerifyOptions, handshake)
 
 	caCache map[*x509.CertPool][]string
 }
@@ -149,7 +151,7 @@ func buildObject(o *ObjSpec, endpoint string) *proxyv1alpha1.UpstreamCluster {
 
 func newWorld(r *vkit.R, traffic bool, hist int) *world {
 	w := &world{r: r, stubs: map[string]*bed.Stub{}, traffic: traffic, model: NewModel(), lister: map[string]*ObjSpec{}, pend: map[string]*proxyv1alpha1.UpstreamCluster{},
-		pendS: map[string]*ObjSpec{}, infos: map[string]*clusters.ClusterInfo{}, hist: hist, caCache: map[*x509.CertPool][]string{}}
+		pendS: map[string]*ObjSpec{}, infos: map[string]*clusters.ClusterInfo{}, hist: hist, caCache: map[*x509.CertPool][]string{}, queried: map[string]bool{}}
 	w.gw = bed.NewGateway(bed.GatewayOptions{})
 	w.token = w.gw.Tokens.Add(&user.DefaultInfo{Name: "c10-user", Groups: []string{"system:authenticated"}})
 	pool := x509.NewCertPool()
@@ -161,7 +163,13 @@ func newWorld(r *vkit.R, traffic bool, hist int) *world {
 	// the base configuration the generic API server would hand to WrapGetConfigForClient (pkg/server/secure_serving.go):
 	// its own certificate, its own client CA, RequestClientCert
 	w.baseC = &tls.Config{Certificates: []tls.Certificate{cert}, ClientCAs: pool, ClientAuth: tls.RequestClientCert, MinVersion: tls.VersionTLS12}
+	// The base GetConfigForClientFunc may hand out a fresh clone per handshake (what the generic API server's functions do)
+	// or one long-lived *tls.Config (equally legal for the interface); both are exercised, alternating by history.
+	w.stableBase = hist%3 != 2
 	w.wrap = w.gw.Ctrl.WrapGetConfigForClient(func(*tls.ClientHelloInfo) (*tls.Config, error) {
+		if w.stableBase {
+			return w.baseC, nil
+		}
 		c := w.baseC.Clone()
 		c.GetConfigForClient = nil
 		return c, nil
@@ -216,6 +224,24 @@ func (w *world) step(ev Event, g *vkit.Rand, deep bool) {
 	var sr bed.SyncResult
 	var refused bool
 	deleted := ""
+	// in-place rotation: the hosts of the cluster are used BEFORE the update (same host strings, same case variants) ...
+	var rotHosts []variant
+	if strings.HasPrefix(ev.Note, "rotate") {
+		for _, n := range w.model.NamesOf(ev.Name) {
+			vs := variantsOf(n)
+			rotHosts = append(rotHosts, vs[0], vs[2])
+		}
+		r.Count("rotations", 1)
+		for _, v := range rotHosts {
+			if !w.checkGetConfig(v, ev.Name) {
+				return
+			}
+			if w.traffic && !w.checkHandshake(v, ev.Name) {
+				return
+			}
+			r.Count("rotation_hosts_used_before_and_after", 1)
+		}
+	}
 	switch ev.Kind {
 	case "apply":
 		obj := buildObject(ev.Obj, w.endpointOf(ev.Obj.Cluster))
@@ -360,6 +386,17 @@ func (w *world) step(ev Event, g *vkit.Rand, deep bool) {
 			if !w.checkSNIVerify(v, owner) {
 				return
 			}
+		}
+	}
+
+	// ... and again right after its sync returned: they must present the new material at once (I4 above covered
+	// GetConfigForClient / SNIVerifyOptions for every variant; here the real handshakes)
+	if w.traffic && !refused {
+		for _, v := range rotHosts {
+			if !w.checkHandshake(v, w.model.Owner[normHost(v.Host)]) {
+				return
+			}
+			r.Count("rotation_handshakes_after", 1)
 		}
 	}
 
@@ -519,8 +556,21 @@ func narrow(cur []int, owner, id string) []int {
 	return cur
 }
 
+// staleClass: the observed material is what the cluster had before its last in-place rotation.
+func (w *world) staleClass(owner, id string, prev map[string]int) bool {
+	p, ok := prev[owner]
+	if !ok {
+		return false
+	}
+	if p == 0 {
+		return id == "base" || id == ""
+	}
+	return id == fmt.Sprintf("%s/%d", owner, p)
+}
+
 func (w *world) checkGetConfig(v variant, owner string) bool {
 	w.r.Count("getconfig_checked", 1)
+	defer func() { w.queried["sni:"+v.Host] = true }()
 	cfg, err := w.wrap(&tls.ClientHelloInfo{ServerName: v.Host})
 	if err != nil || cfg == nil {
 		w.violate("C10/tls/getconfig/error", fmt.Sprintf("GetConfigForClient(%q) returned %v", v.Host, err), map[string]interface{}{"host": v.Host})
@@ -541,13 +591,21 @@ func (w *world) checkGetConfig(v variant, owner string) bool {
 	}
 	okCert := allowedIDs(owner, w.model.Cert[owner], true)
 	if !okCert[certID] {
-		w.violate("C10/tls/getconfig/wrong-certificate/"+v.Class, fmt.Sprintf("SNI %q belongs to cluster %q (cert variants %v) but the TLS config serves certificate %s", v.Host, owner, w.model.Cert[owner], certID), x)
+		sig := "C10/tls/getconfig/wrong-certificate/" + v.Class
+		if w.staleClass(owner, certID, w.model.PrevCert) {
+			sig = "C10/tls/getconfig/stale-certificate-after-rotation"
+		}
+		w.violate(sig, fmt.Sprintf("SNI %q belongs to cluster %q (cert variants %v) but the TLS config serves certificate %s (SNI used before: %v)", v.Host, owner, w.model.Cert[owner], certID, w.queried["sni:"+v.Host]), x)
 		return false
 	}
 	w.model.Cert[owner] = narrow(w.model.Cert[owner], owner, certID)
 	okCA := allowedIDs(owner, w.model.CA[owner], true)
 	if !okCA[caIDs] {
-		w.violate("C10/tls/getconfig/wrong-client-ca/"+v.Class, fmt.Sprintf("SNI %q belongs to cluster %q (CA variants %v) but the client-CA pool accepts [%s]", v.Host, owner, w.model.CA[owner], caIDs), x)
+		sig := "C10/tls/getconfig/wrong-client-ca/" + v.Class
+		if w.staleClass(owner, caIDs, w.model.PrevCA) {
+			sig = "C10/tls/getconfig/stale-client-ca-after-rotation"
+		}
+		w.violate(sig, fmt.Sprintf("SNI %q belongs to cluster %q (CA variants %v) but the client-CA pool accepts [%s] (SNI used before: %v)", v.Host, owner, w.model.CA[owner], caIDs, w.queried["sni:"+v.Host]), x)
 		return false
 	}
 	w.model.CA[owner] = narrow(w.model.CA[owner], owner, caIDs)
@@ -575,7 +633,11 @@ func (w *world) checkSNIVerify(v variant, owner string) bool {
 	}
 	allowed := allowedIDs(owner, w.model.CA[owner], false)
 	if !allowed[ids] {
-		w.violate("C10/tls/sniverify/wrong-roots/"+v.Class, fmt.Sprintf("host %q belongs to cluster %q (CA variants %v) but SNIVerifyOptions ok=%v roots accept [%s]", v.Host, owner, w.model.CA[owner], ok, ids), x)
+		sig := "C10/tls/sniverify/wrong-roots/" + v.Class
+		if w.staleClass(owner, ids, w.model.PrevCA) {
+			sig = "C10/tls/sniverify/stale-roots-after-rotation"
+		}
+		w.violate(sig, fmt.Sprintf("host %q belongs to cluster %q (CA variants %v) but SNIVerifyOptions ok=%v roots accept [%s]", v.Host, owner, w.model.CA[owner], ok, ids), x)
 		return false
 	}
 	if ok {
@@ -663,11 +725,19 @@ func (w *world) checkHandshake(v variant, owner string) bool {
 		wantCA = allowedIDs(owner, w.model.CA[owner], true)
 	}
 	if !wantCert[certID] {
-		w.violate("C10/handshake/wrong-leaf-certificate/"+v.Class, fmt.Sprintf("client handshake with SNI %q (cluster %q) received leaf certificate %s", v.Host, owner, certID), x)
+		sig := "C10/handshake/wrong-leaf-certificate/" + v.Class
+		if w.staleClass(owner, certID, w.model.PrevCert) {
+			sig = "C10/handshake/stale-leaf-certificate-after-rotation"
+		}
+		w.violate(sig, fmt.Sprintf("client handshake with SNI %q (cluster %q) received leaf certificate %s", v.Host, owner, certID), x)
 		return false
 	}
 	if !asked || !wantCA[caID] {
-		w.violate("C10/handshake/wrong-acceptable-cas/"+v.Class, fmt.Sprintf("client handshake with SNI %q (cluster %q): certificate requested=%v acceptable CAs [%s]", v.Host, owner, asked, caID), x)
+		sig := "C10/handshake/wrong-acceptable-cas/" + v.Class
+		if w.staleClass(owner, caID, w.model.PrevCA) {
+			sig = "C10/handshake/stale-acceptable-cas-after-rotation"
+		}
+		w.violate(sig, fmt.Sprintf("client handshake with SNI %q (cluster %q): certificate requested=%v acceptable CAs [%s]", v.Host, owner, asked, caID), x)
 		return false
 	}
 	return true
@@ -796,6 +866,26 @@ func (x *gen) next() Event {
 	}
 	g, w := x.g, x.w
 	roll := g.Intn(100)
+	if l := x.live(); len(l) > 0 && g.Chance(0.12) {
+		// in-place rotation of TLS material: same object name, same server names; only the key pair, only the client CA,
+		// both, or one of them removed / added
+		c := l[g.Intn(len(l))]
+		if w.model.Live(c) && len(w.model.Cert[c]) == 1 {
+			o := x.cur(c)
+			other := func(v int) int { return (v + 1 + g.Intn(2)) % 3 } // a different variant; 0 = none (removed / added)
+			what := ""
+			switch g.Intn(3) {
+			case 0:
+				o.Cert, what = other(o.Cert), "key pair"
+			case 1:
+				o.CA, what = other(o.CA), "client CA"
+			default:
+				o.Cert, o.CA, what = other(o.Cert), other(o.CA), "key pair and client CA"
+			}
+			x.classes["rotation"] = true
+			return Event{Kind: "apply", Name: c, Obj: o, Note: "rotate " + what + " in place"}
+		}
+	}
 	switch {
 	case roll < 22: // create or mutate with free aliases
 		c := x.pickCluster(g.Chance(0.5))
@@ -973,7 +1063,9 @@ func TestCheck(t *testing.T) {
 		r.Rule("seeded random histories of apply/delete/re-delivery events over 6 cluster names and a 9-entry alias pool (mixed case, includes other clusters' names), " +
 			"with scripted sub-sequences: collisions (a name of another live cluster is claimed, also as the object's own name), alias moves A->B in both orders " +
 			"(release first; claim first = refused, then re-delivered after the release), rename by delete+create in both orders, case changes / reorders / duplicates, " +
-			"delete events for objects the controller refused or never saw. The real UpstreamClusterController processes every event (VerifSync over a scripted lister). " +
+			"delete events for objects the controller refused or never saw, in-place rotation of a live cluster's serving key pair / client CA / both (changed, removed, added; names unchanged) " +
+			"with the cluster's hosts used as SNI (GetConfigForClient and, in traffic histories, a real handshake) immediately before and after the update. The base GetConfigForClientFunc " +
+			"returns one long-lived *tls.Config in 2 of 3 histories and a fresh clone in the others. The real UpstreamClusterController processes every event (VerifSync over a scripted lister). " +
 			"After EVERY event: all 12 base names x 5 case/port variants are resolved through the production path and compared with a first-claimant ownership model " +
 			"(I1 resolution, I2 frame, I3 delete), the TLS config from WrapGetConfigForClient and SNIVerifyOptions are compared with the owner's certificate / client CA " +
 			"(behaviourally: which client certificates verify) (I4); on a sample of events real requests go through the handler chain to per-cluster stub upstreams (I5) " +
@@ -1026,7 +1118,9 @@ func TestCheck(t *testing.T) {
 		r.Require(r.Counter("deletes_of_live_cluster") >= int64(nh/4), "too few deletes of live clusters")
 		r.Require(r.Counter("chain_served") >= int64(nh/10) && r.Counter("chain_unresolved") >= int64(nh/30), "too few requests through the handler chain")
 		r.Require(r.Counter("handshakes_checked") >= int64(nh/3), "too few TLS handshakes")
-		for _, c := range []string{"collision", "move-release-first", "move-claim-first", "rename", "case-change", "delete", "redeliver"} {
+		r.Require(r.Counter("rotations") >= int64(nh/2) && r.Counter("rotation_hosts_used_before_and_after") >= int64(nh) && r.Counter("rotation_handshakes_after") >= int64(nh/4),
+			"too few in-place rotations of TLS material with hosts used before and after")
+		for _, c := range []string{"rotation", "collision", "move-release-first", "move-claim-first", "rename", "case-change", "delete", "redeliver"} {
 			r.Require(classCount[c] >= nh/20, "scenario class "+c+" under-represented")
 		}
 	})
